@@ -976,12 +976,14 @@ Lemma bl_destroy_inv v U X lr :
   let '(v', r) := bl_destroy c v lr in
   match r with
   | OK _ => kept v v' U X /\ (exists l', get_blist v' lr = Some l' /\ bl_blocks l' = [])
-  | ER _ => v' = v
+  | ER _ => v' = v /\ exists l b, get_blist v lr = Some l /\ In b (bl_blocks l) /\ meta_is_empty (bk_meta b) = false
   | _ => True
   end.
 Proof.
   intros HI. unfold bl_destroy. destruct (get_blist v lr) as [l|] eqn:Hg; [|exact I].
-  destruct (existsb _ _) eqn:Eall; [reflexivity|].
+  destruct (existsb _ _) eqn:Eall.
+  { split; [reflexivity|]. apply existsb_exists in Eall. destruct Eall as (b & Hb & Hn). exists l, b. split; [auto|]. split; [auto|].
+    apply negb_true_iff in Hn. exact Hn. }
   assert (Hall : forall b, In b (bl_blocks l) -> meta_is_empty (bk_meta b) = true).
   { intros b Hb. destruct (meta_is_empty (bk_meta b)) eqn:E; [auto|]. exfalso.
     assert (existsb (fun b => negb (meta_is_empty (bk_meta b))) (bl_blocks l) = true) by (apply existsb_exists; exists b; rewrite E; auto).
